@@ -23,6 +23,8 @@
       `_is_cyclic` (a DFS) is modelled *extensionally* by `forestB`: a multigraph is acyclic iff every
       non-empty sub-multiset of its edges has a vertex of degree exactly one (a leaf).  The DFS and
       this criterion are compared exhaustively by the correspondence; the theorems are about `Forest`.
+    * `condAfterSwap fixed`: the post-selection conditions re-applied after a SWAP (`fixed = false` as pinned:
+      unchanged; `fixed = true` repaired, `fixes/C20-swap-moves-postselection.diff`: they follow the photons).
     * `qubitList`, `operandIndex`, `qubitNames` = `CQASMConverter._collect_qubit_list`,
       `_operand_to_qubit_indices` (`list.index`), `_get_qubit_names`.
     * `labelCnots fixed`: `fixed = false` is the code as pinned (only CNOTs enter the interaction graph),
@@ -202,6 +204,25 @@ def permTarget (off : ℕ) (perm : List ℕ) (j : ℕ) : ℕ :=
 def swapPairs (a b j : ℕ) : ℕ :=
   if j = 2 * a then 2 * b else if j = 2 * a + 1 then 2 * b + 1
   else if j = 2 * b then 2 * a else if j = 2 * b + 1 then 2 * a + 1 else j
+
+/-! ### post-selection conditions carried across a SWAP
+    (`_create_2_qubit_gates_from_catalog` saves the processor's post-selection, clears it, adds the gate and
+    re-applies the saved conditions) -/
+
+/-- a post-selection condition counts the photons on a list of modes -/
+abbrev Cond := List ℕ
+
+/-- photons a Fock state (mode ↦ count) has on the modes of a condition -/
+def condCount (t : ℕ → ℕ) (c : Cond) : ℕ := (c.map t).sum
+
+/-- the Fock state behind the SWAP of qubits `a` and `b`: mode `j` now holds what `swapPairs a b j` held -/
+def moveState (a b : ℕ) (t : ℕ → ℕ) : ℕ → ℕ := fun j => t (swapPairs a b j)
+
+/-- the condition that is re-applied after a SWAP.  `fixed = false`: the code as pinned (the saved condition,
+unchanged); `fixed = true`: repaired (`fixes/C20-swap-moves-postselection.diff`,
+`PostSelect.apply_permutation`): the condition moves with the photons. -/
+def condAfterSwap (fixed : Bool) (a b : ℕ) (c : Cond) : Cond :=
+  if fixed then c.map (swapPairs a b) else c
 
 /-! ### CNOT labelling -/
 
